@@ -10,6 +10,11 @@ NOT_APPLICABLE = {
 for _p in ["C%02d" % i for i in range(1, 21)]:
     NOT_APPLICABLE.setdefault(_p, PENDING)
 CLAIMED = {
+    "C13": {
+        "text": "Decides structural necessary conditions of all-or-nothing saving for every fault position: each save entry point (found by role) creates files only at names derived from the temporary name; fs::rename has (temp, destination) operands and is unreachable from the failure edge of any preceding fallible step; every BufWriter on the path is flushed with the result checked before the rename (interprocedural summary); no io::Result / XlsxError of an operation on a real sink is unwrapped or dropped on the save call graph; the step that writes the temp file can report failure. Does not decide crash timing or behaviour of the OS rename.",
+        "note": NOTE,
+        "technique": "MIR path rules (must-pass-through, success-edge reachability), operand-order dataflow, result-discipline over the resolved call graph with interprocedural flush summaries",
+    },
     "C01": {
         "text": "Decides structural necessary conditions of the cell round trip for all cells: the writer's (kind, formula) -> t= table, extracted as a normal form of Cell::write_to, composed with the reader's t= -> setter -> constructible-kinds table, preserves every kind of the property's domain; the <v> payload of every kind is data-dependent on the value; the bool literals agree; text reaches the XML sink only through escaping wrappers (who-may-call) and every Event::Text consumer unescapes exactly once; the shared-string key covers all content fields. Does not decide f64/Unicode fidelity or equality of reloaded cell sets.",
         "note": NOTE,
